@@ -142,7 +142,15 @@ def replay_model(o):
     x, y = ut(m["x"]["bits"]).view(t), ut(m["y"]["bits"]).view(t)
     ct = CT[tname]
 
+    cache = {}
+
     def fn(name):
+        if name in cache:
+            return cache[name]
+        cache[name] = _mk(name)
+        return cache[name]
+
+    def _mk(name):
         with warnings.catch_warnings():
             warnings.simplefilter("ignore")
             g = dagfp.expand(name, (ct,))
@@ -161,7 +169,31 @@ def replay_model(o):
 
     kind, name = meta["identity"], meta["func"]
     info = dict(x=repr(x), y=repr(y), witness_class="%s %s %s" % (kind, name, tname))
+    # the abstract model need not be a real counterexample: also look on the special-value lattice around it (the
+    # diagonals |x| = |y|, powers of two, the model's own components permuted and negated)
+    rnd = numpy.random.default_rng(core.SEED)
+    base = [x, y, t(1), t(0.5), t(2), t(10.430907), t(1e-3), t(1e3), numpy.finfo(t).tiny, numpy.finfo(t).max, t(0.28), t(0.7)] + [t(v) for v in rnd.uniform(0.01, 20, 40)]
+    cands = [(x, y)]
+    for a in base:
+        for b in (a, -a):
+            cands += [(a, b), (-a, b)]
+    for a in base[:8]:
+        for b in base[:8]:
+            cands += [(a, b), (a, -b), (-a, b)]
+    for cx, cy in cands:
+        r = _replay_point(info, kind, name, fn, Z, bits, t, cx, cy)
+        if r:
+            info.update(x=repr(cx), y=repr(cy), replayed=True)
+            return info
+    info["replayed"] = False
+    info["points_tried"] = len(cands)
+    return info
+
+
+def _replay_point(info, kind, name, fn, Z, bits, t, x, y):
     try:
+        if not (numpy.isfinite(x) or numpy.isinf(x)) or numpy.isnan(y) or y == 0 or (kind in ("odd", "even") and x == 0):
+            return False
         with numpy.errstate(all="ignore"), warnings.catch_warnings():
             warnings.simplefilter("ignore")
             f = fn(name)
@@ -184,10 +216,12 @@ def replay_model(o):
             else:
                 a, w = f(Z(x, y)), fn("asin")(Z(x, y))
                 ok = bits(Z(0, a.imag))[1] == bits(Z(0, -w.imag))[1]
-        info.update(replayed=not ok, lhs=repr(a))
+        if not ok:
+            info["lhs"] = repr(a)
+        return not ok
     except Exception:
-        info.update(replayed=False, replay_error=traceback.format_exc()[-600:])
-    return info
+        info["replay_error"] = traceback.format_exc()[-600:]
+        return False
 
 
 def build(tier):
